@@ -43,7 +43,8 @@ class LoopSpec(object):
   variant  : fr -> z3 Int                    optional termination measure
   """
   def __init__(self, anchor, inv, havoc, ghost_pre=None, ghost_step=None, variant=None,
-               locals_modified=None):
+               locals_modified=None, label_prefix=None):
+    self.label_prefix = label_prefix
     self.anchor = anchor
     self.inv = inv
     self.havoc = havoc
@@ -86,6 +87,7 @@ class ModuleEnv(object):
     self.ip = ip
     self.name = name
     self.bindings = dict(bindings)
+    self.consts = {}
 
   def lookup(self, name):
     if name in self.bindings:
@@ -95,6 +97,11 @@ class ModuleEnv(object):
       return RepoFunc(mi.functions[name][-1])
     if name in mi.classes:
       return RepoClass(mi.classes[name][self.ip.class_ordinals.get((self.name, name), -1)])
+    if name in mi.assigns:
+      # module-level constant (e.g. UnitMultipliers, defaultSchema): evaluated from source on demand
+      if name not in self.consts:
+        self.consts[name] = self.ip.eval(mi.assigns[name], Frame(None, self))
+      return self.consts[name]
     if name in self.ip.builtins:
       return self.ip.builtins[name]
     raise EngineError("unbound global %r in module %s (bind it in the harness)" % (name, self.name))
@@ -272,6 +279,7 @@ class Interp(object):
     if hook is not None:
       return hook(self, ci, args, kwargs)
     obj = PyObj(ci)
+    self.ctx.counter += 1
     obj.birth = self.ctx.counter
     base = self.builtin_base(ci)
     if base is not None:
@@ -1404,7 +1412,8 @@ class Interp(object):
           continue
       self.exec_block(st.orelse, fr)
       return
-    prefix = "%s%s/loop%d" % (self.label_prefix, fr.func.name, ordn)
+    prefix = "%s%s/loop%d" % (spec.label_prefix if spec.label_prefix is not None else self.label_prefix,
+                              fr.func.name, ordn)
     r = self.run_cut_loop(st, fr, spec, ordn, prefix,
                           lambda: self.truth(self.eval(st.test, fr)))
     if r == 'exit':
@@ -1429,7 +1438,8 @@ class Interp(object):
     seq = self.as_symseq(it)
     fr.loop_k[ordn] = 0
     fr.ghost['seq%d' % ordn] = seq
-    prefix = "%s%s/loop%d" % (self.label_prefix, fr.func.name, ordn)
+    prefix = "%s%s/loop%d" % (spec.label_prefix if spec.label_prefix is not None else self.label_prefix,
+                              fr.func.name, ordn)
 
     orig_havoc = spec.havoc
 
@@ -1440,7 +1450,8 @@ class Interp(object):
       orig_havoc(frm)
 
     wrapped = LoopSpec(spec.anchor, spec.inv, havoc, spec.ghost_pre, spec.ghost_step,
-                       spec.variant, set(spec.locals_modified or ()) | self.target_names(st.target))
+                       spec.variant, set(spec.locals_modified or ()) | self.target_names(st.target),
+                       label_prefix=spec.label_prefix)
 
     def test():
       return fr.loop_k[ordn] < seq.length()
